@@ -1035,7 +1035,7 @@ func (f *Frame) pureApply(c *Contract, fn *types.Func, recv Val, args []Val, st 
 	for i := 0; i < sig.Results().Len(); i++ {
 		rt := f.resolve(sig.Results().At(i).Type())
 		rs := in.sortOf(rt)
-		name := fmt.Sprintf("uf_%s_%d", sanitize(c.Pkg+"."+c.Name), i)
+		name := pureUFName(c, i)
 		in.D.declareFun(name, sorts, rs)
 		t := App(name, rs, ts...)
 		if rs == SInt {
@@ -1135,7 +1135,7 @@ func (f *Frame) pureAxiom(c *Contract, fn *types.Func, withRecv bool, ignored ma
 	for i := 0; i < sig.Results().Len(); i++ {
 		rt := f.resolve(sig.Results().At(i).Type())
 		rs := in.sortOf(rt)
-		name := fmt.Sprintf("uf_%s_%d", sanitize(c.Pkg+"."+c.Name), i)
+		name := pureUFName(c, i)
 		in.D.declareFun(name, sorts, rs)
 		t := App(name, rs, bvs...)
 		apps = append(apps, t)
@@ -1232,4 +1232,14 @@ func (f *Frame) runAsserts(ord int, st *State, call *ast.CallExpr) {
 		f.oblige(st, "assert", fmt.Sprintf("%s#call%d.assert:%d", f.key, ord, i+1), call.Pos(), goal, a.Text)
 		st.assume(goal)
 	}
+}
+
+// pureUFName: the function symbol of result i of a pure contract.  `opt uf NAME` lets several
+// interface methods that are implemented by one and the same concrete method (dsmr.Tx.GetID and
+// eheap.Item.GetID on the same transaction type) share a symbol.
+func pureUFName(c *Contract, i int) string {
+	if u := strings.TrimSpace(c.Opts["uf"]); u != "" {
+		return fmt.Sprintf("uf_%s_%d", sanitize(u), i)
+	}
+	return fmt.Sprintf("uf_%s_%d", sanitize(c.Pkg+"."+c.Name), i)
 }
